@@ -172,13 +172,15 @@ Inductive resolves (ms : list message) : string -> Prop :=
 Inductive srow :=
 | RFile (file pkg : string)
 | RMsg (file msg : string)
-| RField (msg name : string) (num : N) (ty : string) (rep : bool)
+| RField (msg name : string) (num : N) (ty : string) (rep : bool) (json : string)
 | RSigner (msg signer : string)
 | REnum (file en : string)
 | REnumVal (en name : string) (num : Z)
 | RSvc (file svc : string) (msgsvc : bool)
 | RMethod (svc name input output : string) (cs ss : bool)
-| ROpt (owner : string) (num wt : N) (hex : string).
+| ROpt (owner : string) (num wt : N) (hex : string)
+| RUnsupported (file : string) (line : N) (what : string).  (* source side only: a construct the
+                                                               extractor does not understand *)
 
 #[export] Instance EqDec_srow : EqDec srow.
 Proof. intros x y. unfold EqDec in *. decide equality; apply eq_dec. Defined.
@@ -194,6 +196,29 @@ Definition kind_name (k : N) : string :=
 Definition field_type_text (f : field) : string :=
   if N.eqb (f_kind f) 11 || N.eqb (f_kind f) 14 then f_type f else kind_name (f_kind f).
 
+(** protoc's default json name of a field (ToJsonName): underscores are dropped and the
+    character after one is upper-cased *)
+Definition upper_ascii (c : ascii) : ascii :=
+  let n := N_of_ascii c in
+  if (97 <=? n)%N && (n <=? 122)%N then ascii_of_N (n - 32) else c.
+
+Fixpoint json_camel (up : bool) (s : string) : string :=
+  match s with
+  | EmptyString => EmptyString
+  | String c r =>
+      if Ascii.eqb c "_"%char then json_camel true r
+      else String (if up then upper_ascii c else c) (json_camel false r)
+  end.
+
+(** the source table as the extractor writes it carries the json name only where the text spells
+    one ([json_name = "..."]); [src_norm] fills in protoc's default everywhere else *)
+Definition src_norm (rows : list srow) : list srow :=
+  map (fun r => match r with
+                | RField m n num ty rep j =>
+                    RField m n num ty rep (if eqb j EmptyString then json_camel false n else j)
+                | _ => r
+                end) rows.
+
 (** options of one declaration, in the order the translator sorts them (by number); [agg] lists
     per kind of declaration the numbers of message-valued options, compared by presence only *)
 Definition opt_rows (agg : list (string * N)) (kind owner : string) (os : list opt) : list srow :=
@@ -205,7 +230,7 @@ Definition msg_rows (agg : list (string * N)) (fname : string) (m : message) : l
   RMsg fname (m_full m)
   :: map (RSigner (m_full m)) (m_signers m)
   ++ opt_rows agg "msg" (m_full m) (m_opts m)
-  ++ flat_map (fun f => RField (m_full m) (f_name f) (f_num f) (field_type_text f) (N.eqb (f_label f) 3)
+  ++ flat_map (fun f => RField (m_full m) (f_name f) (f_num f) (field_type_text f) (N.eqb (f_label f) 3) (f_json f)
                         :: opt_rows agg "field" (m_full m ++ "." ++ f_name f) (f_opts f)) (m_fields m).
 
 Definition enum_rows (agg : list (string * N)) (fname : string) (e : enum) : list srow :=
